@@ -500,7 +500,8 @@ Definition add_deposit (pid : Z) (a : addr) (amt : Z) (s : state) : outcome stat
     | PClosed => Err EProposal
     | st =>
       let d := bond_denom (cfg s) in
-      if bal_of s a d - locked_of s a d <? amt then Err EFunds
+      (* sdk.Coins are never negative; SendCoinsFromAccountToModule takes from balance - LockedCoins (>= 0) *)
+      if (amt <? 0) || (bal_of s a d - Z.max 0 (locked_of s a d) <? amt) then Err EFunds
       else
         let s1 := pay a (gov_acc (cfg s)) d amt s in
         let total := p_total p + amt in
